@@ -17,11 +17,16 @@ class C13(Prop):
             "expressions, constructor bindings, in-place reload statements with the pushed argument checked); the driver starts "
             "a real Core with every server on scratch ports and performs real reloadConf calls: single groups of global parameters "
             "(corpus of past findings and the in-place reloads - internal users, path confs, record cleaner off/on - first, "
-            "then a seeded selection), histories changing several groups at once with servers switched off and on again, and "
+            "then a seeded selection), PAIRS (for every component of the table one reload that changes a parameter of its "
+            "close predicate together with the path configurations - one added, one edited, one removed - and the internal "
+            "users; every optional server switched off / absent / on again together with those pushes; record cleaner "
+            "going and coming while a server is recreated), histories changing several groups at once with servers switched off and on again, and "
             "(thorough, and in the search run after a broken tie) every global parameter the table mentions, one at a time. "
             "After New and after every reload it records, in-package, which instance stands in Core for every component, whether "
             "each running component holds the new configuration's value for every bound constructor key (about 200 per "
-            "observation, read from the component's own fields; for the internal users also by calling Authenticate), and "
+            "observation, read from the component's own fields; for the internal users also by calling Authenticate; for the "
+            "path manager also its path table: every static configuration has a live path, every live path resolves to a "
+            "configuration and runs with the new *conf.Path), and "
             "whether each held reference is the current instance. Non-trivial = a history that changed something")
     trusted_base = ["Coq 8.16.1 kernel + VM", "translator tools/gen/coredeps (validated by the real reloads: the generated "
                     "predicates, guards and bindings must predict what a real Core does)",
@@ -41,8 +46,12 @@ class C13(Prop):
              "predicates; and, on a model of reloadConf itself (closeResources with its in-place pushes, conf.Store, "
              "createResources), that after ANY history of successful reloads every running component holds the current "
              "value of every parameter it is built from, stands in Core exactly when its guard holds, and holds the current "
-             "instance of every component handed to it; unchanged components keep their instance. Real reloads of a real "
-             "Core (single groups, multi-group histories, servers off and on, every parameter in the thorough tier) validate "
+             "instance of every component handed to it; unchanged components keep their instance. The in-place reload statements "
+             "are translated one by one with THEIR OWN guard (core_pushes); Coq proves for every table / statement list / pair of "
+             "configurations / state that statements guarded by the close variable of the component they push into behave as the "
+             "rows say and deliver the new value whatever else changes in the same reload, checks that on the generated list, and "
+             "refutes a guard taken from another component by a witness (invisible to one-change reloads). Real reloads of a real "
+             "Core (single groups, every component's parameter x path configurations x internal users in ONE reload, multi-group histories, servers off and on, every parameter in the thorough tier) validate "
              "the translator and observe the applied values inside the running components.",
         note="Trusted: Coq kernel+VM, the go/ast translator (validated by real reloads), pointer identity as 'recreated', "
              "reflection reads of component fields. Per-path parameters are pushed in place (ReloadPathConfs) and are C15's subject.",
